@@ -85,14 +85,14 @@ Section Alias.
   Lemma Good_safe : forall f s v, Good f s v -> safe f s hs v = true.
   Proof. intros f s v H. specialize (H []). rewrite app_nil_r in H. exact H. Qed.
 
-  Lemma Good_fresh_idict : forall f s it,
+  Lemma Good_fresh_idict : forall f s fac it,
     memh (length s) hs = false ->
     (forall x, In x (map snd it) -> Good (pred f) s x) ->
-    Good f (s ++ [PyDict it]) (VIDict (length s)).
+    Good f (s ++ [PyDict fac it]) (VIDict (length s)).
   Proof.
-    intros f s it Hm H e. destruct f as [|f]; [reflexivity|]. simpl. rewrite Hm. simpl.
+    intros f s fac it Hm H e. destruct f as [|f]; [reflexivity|]. simpl. rewrite Hm. simpl.
     rewrite lookup_fresh. simpl. rewrite forallb_forall. intros x Hx.
-    specialize (H x Hx ([PyDict it] ++ e)). rewrite app_assoc in H. exact H.
+    specialize (H x Hx ([PyDict fac it] ++ e)). rewrite app_assoc in H. exact H.
   Qed.
 
   Lemma Good_values_of_ref : forall F s h c,
@@ -135,7 +135,7 @@ Section Alias.
     unfold as_pair in E. destruct el; try discriminate.
     - destruct l as [|a [|b [|? ?]]]; try discriminate. inversion E; subst.
       apply (Good_elems F s [VAtom k; x]); [left; exact HG | right; left; reflexivity].
-    - destruct (lookup s h) as [[it|l]|] eqn:L; try discriminate.
+    - destruct (lookup s h) as [[fac it|l]|] eqn:L; try discriminate.
       destruct l as [|a [|b [|? ?]]]; try discriminate. inversion E; subst.
       apply (Good_values_of_ref F s h (PyList [VAtom k; x]) HG L). right; left; reflexivity.
     - destruct l as [|a [|b [|? ?]]]; try discriminate. inversion E; subst.
@@ -191,12 +191,12 @@ Section Alias.
     - (* an ImmutableDict: shared *)
       inversion H; subst. split; [exists []; rewrite app_nil_r; reflexivity|].
       destruct Hsep as [Hg|[h0 [c [E _]]]]; [|discriminate]. eapply Good_le; [|exact Hg]. lia.
-    - destruct (lookup s h) as [[it|l]|] eqn:L; [| |discriminate].
+    - destruct (lookup s h) as [[fac it|l]|] eqn:L; [| |discriminate].
       + (* a dict: copied into a fresh cell *)
         unfold alloc in H. inversion H; subst. split; [eexists; reflexivity|].
         apply Good_fresh_idict; [apply HV_fresh; exact Hv|].
         intros x Hx. destruct Hsep as [Hg|[h0 [c [E [L' Hc]]]]].
-        * eapply Good_le; [|apply (Good_values_of_ref F s h (PyDict it) Hg L x Hx)]. lia.
+        * eapply Good_le; [|apply (Good_values_of_ref F s h (PyDict fac it) Hg L x Hx)]. lia.
         * inversion E; subst. rewrite L in L'. inversion L'; subst.
           eapply Good_le; [|apply Hc; exact Hx]. lia.
       + (* a list of pairs *)
@@ -261,7 +261,7 @@ Section Alias.
         * inversion H; subst. split; [exact Hnil|]. apply Good_hfree. reflexivity.
         * inversion H; subst. split; [exact Hnil|].
           destruct Ha as [Hg|[h0 [c [E _]]]]; [|discriminate]. eapply Good_le; [|exact Hg]. lia.
-        * destruct (lookup s h) as [[it|l]|] eqn:L; try discriminate.
+        * destruct (lookup s h) as [[fac it|l]|] eqn:L; try discriminate.
           eapply idict_init_good; eauto.
     - (* tuplify_extra_headers + validator *)
       destruct (tuplify s v) as [t|] eqn:T; [|discriminate].
@@ -326,7 +326,7 @@ Section Alias.
       (exists e, s' = s ++ e) /\ hfree x = true /\ Good G s' md.
     Proof.
       intros G f s v k x md s' Hv H. unfold copy_pop in H. destruct v; try discriminate.
-      destruct (lookup s h) as [[it|l]|]; try discriminate.
+      destruct (lookup s h) as [[fac it|l]|]; try discriminate.
       destruct (deepcopy f s (VIDict h)) as [[| | | | | | |m kvs]|] eqn:D1; try discriminate.
       unfold alloc in H. inversion H; subst. apply deepcopy_hfree in D1. simpl in D1.
       rewrite forallb_forall in D1. split; [eexists; reflexivity|]. split.
@@ -349,7 +349,7 @@ Section Alias.
       destruct (negb (beqb cls (bs "Revision"))); [apply Triv; exact H|].
       destruct (get_field K_META rows vals) as [[| | | |hm| | |]|]; try (apply Triv; exact H).
       destruct (get_field K_XH rows vals) as [[| |[|? ?]| | | | |]|]; try (apply Triv; exact H).
-      destruct (lookup s hm) as [[it|l]|]; try (apply Triv; exact H).
+      destruct (lookup s hm) as [[fac it|l]|]; try (apply Triv; exact H).
       destruct (assoc XH_KEY it) as [xh|]; [|apply Triv; exact H].
       destruct (copy_pop New f s (VIDict hm) XH_KEY) as [[[xh' md] s2]|] eqn:CP; [|discriminate].
       destruct (tuplify s2 xh') as [t|] eqn:T; [|discriminate].
@@ -428,7 +428,7 @@ Definition from_dict_reads (s : store) (cls : bytes) (d : pyval) : option (list 
   match d with
   | VRef hd =>
       match lookup s hd, class_fields ALL_CLASSES cls with
-      | Some (PyDict items), Some rows => from_dict_args rows items
+      | Some (PyDict _ items), Some rows => from_dict_args rows items
       | _, _ => None
       end
   | _ => None
@@ -450,7 +450,7 @@ Theorem no_alias_from_dict : forall Hid Hpy hs g f s0 cls d args o s1 ms,
 Proof.
   intros Hid Hpy hs g f s0 cls d args o s1 ms Hr Hsep Hc Hms.
   unfold from_dict_reads in Hr. unfold from_dict in Hc. destruct d; try discriminate.
-  destruct (lookup s0 h) as [[items|?]|]; try discriminate.
+  destruct (lookup s0 h) as [[? items|?]|]; try discriminate.
   destruct (class_fields ALL_CLASSES cls) as [rows|]; try discriminate.
   rewrite Hr in Hc. eapply no_alias; eauto.
 Qed.
